@@ -4,6 +4,8 @@ package checks
 
 import (
 	"fmt"
+	"os"
+	"sort"
 	"sync"
 	"testing"
 	"time"
@@ -458,6 +460,97 @@ func runCacheStressCase(c cacheStressCase) *Violation {
 				return violation(prop, "stress/error", "fresh copy: %v", err)
 			}
 			expected[g] = append(expected[g], exp{q: q, el: el, want: w})
+		}
+	}
+	// cold starts: on a freshly opened copy (empty cache) unfiltered and filtered first searches of
+	// the same field start at the same instant, so several goroutines load and cache that field's
+	// index concurrently; every answer must equal the fresh-copy answer computed beforehand
+	type coldJob struct {
+		field  string
+		q      []float32
+		filter bool
+		el     []uint64
+		want   []vecPair
+	}
+	var coldJobs []coldJob
+	{
+		var names []string
+		for f, vf := range want.Vec {
+			if len(vf.Entries) > 0 {
+				names = append(names, f)
+			}
+		}
+		sort.Strings(names)
+		for _, f := range names {
+			vf := want.Vec[f]
+			q := append([]float32(nil), vf.Entries[0].Vec...)
+			el := []uint64{vf.Entries[0].Doc}
+			for _, flt := range []bool{false, true} {
+				o, err := drive.Open(path)
+				if err != nil {
+					seg.Close()
+					return violation(prop, "setup/open", "%v", err)
+				}
+				var e []uint64
+				if flt {
+					e = el
+				}
+				w, err := vecSearch(o, f, q, 50, nil, flt, e)
+				o.Close()
+				if err != nil {
+					seg.Close()
+					return violation(prop, "stress/error", "fresh copy: %v", err)
+				}
+				coldJobs = append(coldJobs, coldJob{field: f, q: q, filter: flt, el: e, want: w})
+			}
+		}
+	}
+	rounds := 25
+	if os.Getenv("VERIF_TIER") == "thorough" {
+		rounds = 150
+	}
+	for r := 0; r < rounds && len(coldJobs) > 0; r++ {
+		cold, err := drive.Open(path)
+		if err != nil {
+			seg.Close()
+			return violation(prop, "setup/open", "%v", err)
+		}
+		n := 2 * len(coldJobs)
+		coldRes := make([]*Violation, n)
+		var cwg, ready sync.WaitGroup
+		go0 := make(chan struct{})
+		for g := 0; g < n; g++ {
+			job := coldJobs[(g+r)%len(coldJobs)]
+			cwg.Add(1)
+			ready.Add(1)
+			go func(g int) {
+				defer cwg.Done()
+				ready.Done()
+				<-go0
+				err := drive.Safe(func() error {
+					got, err := vecSearch(cold, job.field, job.q, 50, nil, job.filter, job.el)
+					if err != nil {
+						return err
+					}
+					if fmt.Sprint(got) != fmt.Sprint(job.want) {
+						coldRes[g] = violation(prop, "stress/history-dependent-answer", "cold start: first search of field %q (q=%v k=50 filtered=%v eligible=%v) racing with other first searches of the segment: got %v, a fresh copy answers %v", job.field, job.q, job.filter, job.el, got, job.want)
+					}
+					return nil
+				})
+				if err != nil && coldRes[g] == nil {
+					coldRes[g] = violation(prop, "stress/error", "cold start: %v", err)
+				}
+			}(g)
+		}
+		ready.Wait()
+		close(go0)
+		cwg.Wait()
+		cold.Close()
+		for _, v := range coldRes {
+			if v != nil {
+				seg.Close()
+				return v
+			}
 		}
 	}
 	res := make([]*Violation, len(c.Searchers))
